@@ -72,11 +72,12 @@ theorem list_too_many (e : SEnum ν) (a b : NestedMeta) (rest : List NestedMeta)
 
 theorem list_literal (e : SEnum ν) (l : Lit) : enumFromList e [.lit l] = .err (Err.unsupportedFormat "literal") := rfl
 
-/-- one nested item: the variant named by the item, or an unknown-name error at the item -/
+/-- one nested item: the variant named by the item — whatever its arm reports is spanned with the
+    selecting item unless it is located more precisely — or an unknown-name error at the item -/
 theorem list_one (e : SEnum ν) (nested : Meta) :
     enumFromList e [.item nested] =
       match e.arm nested.path'.toStr with
-      | some v => dataArm v nested
+      | some v => (dataArm v nested).mapErr (·.withSpan nested.span)
       | none => .err ((e.unknownErr nested.path'.toStr).withSpan nested.span) := rfl
 
 /-- a single nested *word* selects the unit variant of that name -/
